@@ -20,6 +20,7 @@ def _get_driver(name):
             "labels": "harness.labeldriver",
             "glob": "harness.globdriver",
             "session": "harness.sessiondriver",
+            "graph": "harness.graphdriver",
         }[name])
     return _DRIVERS[name]
 
